@@ -2,7 +2,7 @@
    [run opcode argument].  Extracted to OCaml (bin/dlms_model) and also evaluated in the
    kernel by generated cases files.  Opcode names are parsed from the comments below by
    harness/lib.py — keep the format  "| <n> (* <name> *) =>". *)
-From Dlms Require Import Base CrcModel CrcSpec FieldsModel FieldsSpec AddrModel AddrSpec.
+From Dlms Require Import Base CrcModel CrcSpec FieldsModel FieldsSpec AddrModel AddrSpec WrapperModel WrapperProofs.
 
 Definition v_bools (l : list bool) : V := VList (map VBool l).
 Definition as_bools (v : V) : list bool := map as_b (as_list v).
@@ -20,6 +20,9 @@ Definition as_optz (v : V) : option Z := match v with VInt z => Some z | _ => No
 Definition as_optn (v : V) : option N := match v with VInt z => Some (Z.to_N z) | _ => None end.
 Definition v_addr (x : addr) : V := let '(l, p, s) := x in VList [VN l; v_optn p; VBool s].
 Definition v_found (x : N * option N * nat) : V := let '(l, p, k) := x in VList [VN l; v_optn p; v_nat k].
+
+Definition v_whdr (h : whdr) : V := let '(s, d, l, v) := h in VList [VN s; VN d; VN l; VN v].
+Definition as_nats (v : V) : list nat := map (fun x => N.to_nat (as_n x)) (as_list v).
 
 Definition run (op : N) (a : V) : V :=
   match op with
@@ -78,5 +81,13 @@ Definition run (op : N) (a : V) : V :=
   | 53 (* source_from_bytes *) => v_res v_addr (source_from_bytes (as_bytes (arg 0 a)) (as_b (arg 1 a)))
   | 54 (* spec_addr *) =>
       VBytes (if as_b (arg 2 a) then std_server (as_n (arg 0 a)) (as_optn (arg 1 a)) else std_client (as_n (arg 0 a)))
+  (* ---- IP wrapper and TCP transport (C17) ---- *)
+  | 60 (* whdr_to_bytes *) => v_res VBytes (whdr_to_bytes (as_n (arg 0 a), as_n (arg 1 a), as_n (arg 2 a), as_n (arg 3 a)))
+  | 61 (* whdr_from_bytes *) => v_res v_whdr (whdr_from_bytes (as_bytes a))
+  | 62 (* wpdu_from_bytes *) => v_res (fun x => VList [VBytes (fst x); v_whdr (snd x)]) (wpdu_from_bytes (as_bytes a))
+  | 63 (* tcp_wrap *) => v_res VBytes (tcp_wrap (as_n (arg 0 a)) (as_n (arg 1 a)) (as_bytes (arg 2 a)))
+  | 64 (* tcp_recv *) =>
+      let '(r, (rest, _)) := tcp_recv (as_bytes (arg 0 a), as_nats (arg 1 a)) in VList [v_res VBytes r; VBytes rest]
+  | 65 (* spec_std_header *) => VBytes (std_header (as_n (arg 0 a)) (as_n (arg 1 a)) (as_n (arg 2 a)) (as_n (arg 3 a)))
   | _ => bad_args
   end.
